@@ -12,8 +12,9 @@ namespace Mesa.Rng
 
 /-- No stochastic call site in mesa/**/*.py draws from a process-global generator, and none has an
     unclassified receiver: each one draws from a generator handed to it (the model's), or is one of the
-    documented `Random()` fallbacks taken only when the caller passed no generator. -/
-theorem C01_no_global_sites : ∀ s ∈ sites, s.recv = .modelGen ∨ s.recv = .fallback := by decide
+    documented `Random()` fallbacks, and every fallback sits in the body of `if <random|rng|seed parameter> is None:`
+    (the extractor records this per site), i.e. is taken only when the caller passed no generator. -/
+theorem C01_no_global_sites : ∀ s ∈ sites, s.recv = .modelGen ∨ (s.recv = .fallback ∧ s.guarded = true) := by decide
 
 /-- the generated table is not vacuous -/
 theorem C01_sites_nonempty : 20 ≤ sites.length ∧ 5 ≤ siteFiles.length := by decide
